@@ -26,7 +26,6 @@ import (
 	"github.com/hydraide/hydraide/app/core/hydra"
 	"github.com/hydraide/hydraide/app/core/hydra/swamp"
 	"github.com/hydraide/hydraide/app/core/settings"
-	"github.com/hydraide/hydraide/app/name"
 	"github.com/hydraide/hydraide/app/verifhook"
 	hydrapb "github.com/hydraide/hydraide/sdk/go/hydraidego/v3/hydraidepbgo"
 
@@ -483,11 +482,13 @@ func waitClosed(hy hydra.Hydra, swampName string, d time.Duration) bool {
 	return true
 }
 
-// seed writes the initial keys with value v0 and closes the swamp (setup, not under test).
 type seedLoss struct{ obs map[string]string }
 
-func (s *seedLoss) Error() string { return fmt.Sprintf("seeded records read %v after a plain Close and re-open", s.obs) }
+func (s *seedLoss) Error() string { return fmt.Sprintf("seeded records read %v after idle close and re-open", s.obs) }
 
+// seed writes the initial keys with value v0, lets the swamp idle out (the close listener holds closeWriteMutex, so
+// this close cannot overtake a write tick the way an explicit Close() can: D_C16_StopCloseOvertakesWriteTick), reads
+// the keys back and lets the reading instance idle out as well (setup, not under test).
 func (e *env) seed(swampName string, keys []string) error {
 	if len(keys) == 0 {
 		return nil
@@ -497,13 +498,8 @@ func (e *env) seed(swampName string, keys []string) error {
 			return fmt.Errorf("seed set %s: %s", k, r)
 		}
 	}
-	sw, err := e.hy.SummonSwamp(context.Background(), island, name.Load(swampName))
-	if err != nil {
-		return err
-	}
-	sw.Close()
-	if !waitClosed(e.hy, swampName, 30*time.Second) {
-		return fmt.Errorf("seed: swamp did not close")
+	if !waitClosed(e.hy, swampName, stepTimeout) {
+		return fmt.Errorf("seed: swamp did not idle-close")
 	}
 	got, err := e.readKeys(swampName, keys)
 	if err != nil {
@@ -511,18 +507,35 @@ func (e *env) seed(swampName string, keys []string) error {
 	}
 	for _, k := range keys {
 		if got[k] != "v0" {
-			return &seedLoss{obs: got} // an acknowledged write that does not survive Close + re-open: a verdict, not a harness problem
+			return &seedLoss{obs: got} // an acknowledged write that does not survive idle close + re-open: a verdict, not a harness problem
 		}
 	}
-	sw, err = e.hy.SummonSwamp(context.Background(), island, name.Load(swampName))
-	if err != nil {
-		return err
-	}
-	sw.Close()
-	if !waitClosed(e.hy, swampName, 30*time.Second) {
-		return fmt.Errorf("seed: swamp did not close (2)")
+	if !waitClosed(e.hy, swampName, stepTimeout) {
+		return fmt.Errorf("seed: swamp did not idle-close (2)")
 	}
 	return nil
+}
+
+// goroutinesGone waits until none of the goroutines exists any more (tickers / listeners of closed instances return
+// at their next select): the quiescence the specification's Terminal state demands before the re-open.
+func goroutinesGone(ids []int64, d time.Duration) bool {
+	deadline := time.Now().Add(d)
+	for {
+		st := sched.States()
+		alive := false
+		for _, id := range ids {
+			if _, ok := st[id]; ok {
+				alive = true
+			}
+		}
+		if !alive {
+			return true
+		}
+		if time.Now().After(deadline) {
+			return false
+		}
+		time.Sleep(20 * time.Millisecond)
+	}
 }
 
 // ---------------------------------------------------------------------------------------------
@@ -936,6 +949,17 @@ func replay(sc *schedule) *result {
 			}
 			cancel()
 		}
+	}
+	w.mu.Lock()
+	var bg []int64
+	for _, p := range w.procs {
+		if p.kind == 'W' || p.kind == 'L' || p.kind == 'S' {
+			bg = append(bg, p.goid)
+		}
+	}
+	w.mu.Unlock()
+	if !goroutinesGone(bg, stepTimeout) && res.Infra == "" {
+		res.Infra = "listener / ticker goroutines of closed instances did not finish"
 	}
 	var obs map[string]string
 	var err error
